@@ -3,6 +3,8 @@
 mod spec;
 mod p_kmer;
 mod p_min;
+mod p_posmaps;
+mod util;
 
 use std::collections::HashMap;
 
@@ -83,6 +85,7 @@ fn main() {
         "c01" => p_kmer::c01(&o),
         "c02" => p_kmer::c02(&o),
         "c09" => p_min::c09(&o),
+        "c03" => p_posmaps::c03(&o),
         "c18" => p_min::c18(&o),
         other => {
             eprintln!("unknown command {}", other);
